@@ -64,6 +64,7 @@ Definition run_serde (a : list N) : list N :=
              (fun w => match v, w with
                        | VSize x, VSize y => x =? y | VParent x, VParent y => parent_eqb x y | VLeaf x, VLeaf y => leaf_eqb x y
                        | VError x, VError y => eerr_eqb x y | VDone, VDone => true | _, _ => false end)
+    else if 6 <=? arg p 0 then [0; 0; 0; 0; 1]     (* payload-less io error: platform text, round trip only *)
     else let v := mk_err p in obs_pc (ser_eerr v) de_eerr (eerr_eqb v)
   else
     (* JSON: text compared for the scalar / struct types, round trip flag for all *)
